@@ -19,6 +19,7 @@ package config
 import (
 	"fmt"
 	"net/url"
+	"slices"
 	"strings"
 
 	"github.com/dadrus/heimdall/internal/x"
@@ -53,16 +54,26 @@ func (r QueryParamsRemover) RemoveFrom(value string) string {
 		return value
 	}
 
-	query, err := url.ParseQuery(value)
-	if err != nil {
-		return value
+	// The parameters are removed from the query as it has been received. Everything else stays untouched,
+	// that is, neither the order, nor the encoding of the remaining parameters is changed, and parameters,
+	// which cannot be decoded, neither get lost, nor prevent the removal of the configured ones.
+	pairs := strings.Split(value, "&")
+	remaining := make([]string, 0, len(pairs))
+
+	for _, pair := range pairs {
+		key, _, _ := strings.Cut(pair, "=")
+
+		name, err := url.QueryUnescape(key)
+		if err != nil {
+			name = key
+		}
+
+		if !slices.Contains(r, name) {
+			remaining = append(remaining, pair)
+		}
 	}
 
-	for _, param := range r {
-		query.Del(param)
-	}
-
-	return query.Encode()
+	return strings.Join(remaining, "&")
 }
 
 type URLRewriter struct {
